@@ -1249,8 +1249,9 @@ def derived_observable(func, data, array_mode=False, **kwargs):
                 allcov[name] = o.covobs[name].cov
 
     n_obs = len(raveled_data)
-    new_names = sorted(set([y for x in [o.names for o in raveled_data] for y in x]))
-    new_cov_names = sorted(set([y for x in [o.cov_names for o in raveled_data] for y in x]))
+    # the placeholders for plain numbers do not appear in the result
+    new_names = sorted(set([y for x in [o.names for o in raveled_data] for y in x]) - {"###dummy_covobs###"})
+    new_cov_names = sorted(set([y for x in [o.cov_names for o in raveled_data] for y in x]) - {"###dummy_covobs###"})
     new_sample_names = sorted(set(new_names) - set(new_cov_names))
 
     reweighted = len(list(filter(lambda o: o.reweighted is True, raveled_data))) > 0
@@ -1364,7 +1365,7 @@ def derived_observable(func, data, array_mode=False, **kwargs):
                     else:
                         new_deltas[name] = new_deltas.get(name, 0) + deriv[i_val + j_obs] * _expand_deltas_for_merge(obs.deltas[name], obs.idl[name], obs.shape[name], new_idl_d[name], scalef_d.get(name.split('|')[0], 1))
 
-        new_covobs = {name: Covobs(0, allcov[name], name, grad=new_grad[name]) for name in new_grad}
+        new_covobs = {name: Covobs(0, allcov[name], name, grad=new_grad[name]) for name in new_grad if name != "###dummy_covobs###"}
 
         if not set(new_covobs.keys()).isdisjoint(new_deltas.keys()):
             raise ValueError('The same name has been used for deltas and covobs!')
